@@ -9,8 +9,19 @@ use crate::Ctx;
 fn quantiles_call(inp: &Value) -> Value {
     let r = us(&inp["rate"]);
     let e = us(&inp["eps"]);
-    let ap = ApproximatedPoisson::new(r[0] as f64 / r[1] as f64, e[0] as f64 / e[1] as f64);
-    let n: Vec<u64> = us(&inp["deltas"]).into_iter().map(|dl| ap.number_arrivals(d(dl)) as u64).collect();
+    // two ways of constructing the same model
+    let ap = if inp["via"].as_str() == Some("approximate") {
+        Poisson { rate: r[0] as f64 / r[1] as f64 }.approximate(e[0] as f64 / e[1] as f64)
+    } else {
+        ApproximatedPoisson::new(r[0] as f64 / r[1] as f64, e[0] as f64 / e[1] as f64)
+    };
+    let n: Vec<u64> = match inp.get("jitter") {
+        Some(j) => {
+            let jit = ap.clone_with_jitter(d(u(j)));
+            us(&inp["deltas"]).into_iter().map(|dl| jit.number_arrivals(d(dl)) as u64).collect()
+        }
+        None => us(&inp["deltas"]).into_iter().map(|dl| ap.number_arrivals(d(dl)) as u64).collect(),
+    };
     json!({ "n": n })
 }
 
@@ -43,12 +54,19 @@ pub fn run(ctx: &mut Ctx) {
                 x = if x < 40 { x + 1 } else if x < 200 { x + 7 } else if x < 800 { x + 37 } else { x + 181 };
             }
             // one event per chunk of deltas so that a hang is attributable
-            for ch in deltas.chunks(12) {
-                let inp = json!({"rate": r, "eps": e, "deltas": ch});
+            for (ci, ch) in deltas.chunks(12).enumerate() {
+                let mut inp = json!({"rate": r, "eps": e, "deltas": ch});
+                if ci % 2 == 1 {
+                    inp["via"] = json!("approximate");
+                }
+                if ci % 3 == 2 {
+                    // release jitter: Propagated over the approximated process
+                    inp["jitter"] = json!(1 + (ci as u64 % 5));
+                }
                 ctx.call("poisson", inp, quantiles_call);
             }
         }
-        for dl in [1u64, 2, 3, 5, 8, 13, 20, 40] {
+        for dl in [0u64, 1, 2, 3, 5, 8, 13, 20, 40] {
             let mean = dl * r[0] / r[1];
             if mean > 50 {
                 continue;
